@@ -530,6 +530,16 @@ func runC04(c *fw.Ctx) {
 	for i := 0; i < c.Pick(2000, 20000); i++ {
 		c.Case(func(k *fw.K) { rejectThenReuse(k, RandShape(k.Rng, 0, 4, 3)) })
 	}
+	// ---- batch shapes that collide under ad-hoc keys and are broadcast-compatible with each other: [1,11] against [11,1], [1,12] against
+	// [12,1] ... as the batch dimensions of MatMul and as the leading dimensions of Dot ----
+	for _, pr := range [][2][]int{{{1, 11}, {11, 1}}, {{11, 1}, {1, 11}}, {{1, 12}, {12, 1}}, {{1, 1, 11}, {1, 11, 1}}, {{11}, {1}}, {{1, 111}, {111, 1}}, {{10, 1}, {1, 10}}, {{2, 1, 3}, {1, 3, 1}}} {
+		pr := pr
+		c.Case(func(k *fw.K) { c04MatMul(k, pr[0], pr[1], 1+k.Rng.Intn(2), 1+k.Rng.Intn(3), 1+k.Rng.Intn(2), true) })
+		c.Case(func(k *fw.K) {
+			n := 1 + k.Rng.Intn(3)
+			c04Dot(k, append(ref.CopyInts(pr[0]), n), append(ref.CopyInts(pr[1]), n), true)
+		})
+	}
 	// ---- Dot ----
 	for _, dst := range Shapes(1, c.Pick(4, 5), 3) {
 		last := dst[len(dst)-1]
